@@ -246,8 +246,53 @@ def closure_rows(facts, c):
                 if not t["dest"]["p"] and c["locals"][t["dest"]["l"]]["ty"] != "()":
                     continue
                 eff.append(nm)
-        rows.append((lits, outcome, tuple(sorted(eff))))
+        split = _split_then_some(facts, outcome)
+        if split is not None:
+            # `cond.then_some(v).ok_or_else(|| e)` / `.ok_or(e)`  ==  `if cond { Ok(v) } else { Err(e) }`
+            cond, okv, errv = split
+            rows.append((lits + [(cond, True)], okv, tuple(sorted(eff))))
+            rows.append((lits + [(cond, False)], errv, tuple(sorted(eff))))
+        else:
+            rows.append((lits, outcome, tuple(sorted(eff))))
     return rows
+
+
+def _split_then_some(facts, outcome):
+    r = _single(outcome)
+    if r is None or r[0] != "call" or r[1] not in ("ok_or_else", "ok_or") or len(r[3]) != 2:
+        return None
+    inner = _single(r[3][0])
+    if inner is None or inner[0] != "call" or inner[1] not in ("then_some", "then") or len(inner[3]) != 2:
+        return None
+    cond = _single(inner[3][0])
+    if cond is None:
+        return None
+    import nf as _nf
+
+    def value_of(rs, params):
+        clo = _single(rs)
+        if clo is not None and clo[0] == "closure":
+            cb = facts.by_key.get(clo[1])
+            if cb is None:
+                return None
+            rr = GProv(cb, facts).of_local(0)
+            ups2 = []
+            for i, (n_, v_) in enumerate(clo[2]):       # captured variables are addressed by index in the closure's MIR
+                ups2.append((str(i), v_))
+                if n_ != str(i):
+                    ups2.append((n_, v_))
+            mapping = {1: {("closure", clo[1], tuple(ups2))}}
+            for i, p_ in enumerate(params):
+                mapping[2 + i] = set(p_)
+            return _nf.subst(frozenset(rr), mapping)
+        return frozenset(rs)
+    okv = value_of(inner[3][1], []) if inner[1] == "then" else frozenset(inner[3][1])
+    errv = value_of(r[3][1], []) if r[1] == "ok_or_else" else frozenset(r[3][1])
+    if okv is None or errv is None:
+        return None
+    ok_out = {("aggf", "std::result::Result::Ok", (("0", frozenset(okv)),))}
+    err_out = {("aggf", "std::result::Result::Err", (("0", frozenset(errv)),))}
+    return cond, ok_out, err_out
 
 
 def _merge(a, b):
